@@ -269,8 +269,8 @@ CLAIMED["C09"]["text"] = CLAIMED["C09"]["text"].replace("one open finding (the s
 _add("C10", "The store's filter_timepos (positions in degrees) is driven against the lookup model, invalid latitudes included (degrees were hashed as radians, repaired 69ca040).")
 _add("C12", "After the bug hunt: three small synthetic sky maps (every card mutated), a pre-v2 ST-MOC file, non-ASCII bytes in string cards probed in child processes, the legality of the depth of whatever a FITS reader returns, "
             "directed streaming-ASCII and JSON documents (numbers beyond the index type, depths the quantity does not have, non-integer elements); six reader defects repaired (95aafbb f20464d 247aa1b 6472aa3 3ea4fae and the long keyword 6fedaa8).")
-_add("C13", "Typed drops (drop_smoc/tmoc/fmoc/stmoc) are driven, on the kind of the MOC and on another one: a mismatch is an error WITHOUT effect (guard + the modelled drop in one write section; they used to destroy the MOC, repaired e735082).")
-_add("C14", "Identifiers beyond 48 bits and the status `void` are driven (refused, file unchanged, no lock left; repaired 474fcb0 0a8310c) — the refusal of such commands is command-line domain checking done in the driver, not in the Lean model.")
+_add("C13", "Typed drops (drop_smoc/tmoc/fmoc/stmoc) are driven, on the kind of the MOC and on another one: a mismatch is an error WITHOUT effect (Store.dropKind, theorem typed_drop_spec; they used to destroy the MOC, repaired e735082).")
+_add("C14", "Identifiers beyond 48 bits and the status `void` are driven (refused, file unchanged, no lock left; repaired 474fcb0 0a8310c) — modelled by msAppendCmd / msChgStatusCmd (theorem cmd_domain).")
 _add("C15", "Positions and cones at lat = +90 and -90 degrees are driven (the north pole was rejected, repaired 34239d6).")
 _add("C16", "A reader that is ALREADY walking the file when an append completes is reproduced deterministically (undrained pipe, 16000 MOCs): it must answer with the state before or after (it crashed, repaired a3a90d0).")
 _add("C18", "tmoc_ranges_contains_exactly / fmoc_ranges_contains_exactly now hold for EVERY list of ranges, empty ones included (no cell for an empty range whatever its alignment and the index width).")
